@@ -1743,3 +1743,10 @@ mod test {
         assert_eq!(value.len(), 2);
     }
 }
+
+// verification hook (guarded, inactive in normal builds): in-crate proof harnesses kept outside the repository
+#[cfg(autosar_data_verif)]
+#[allow(missing_docs, dead_code, unused, clippy::all)]
+pub(crate) mod verif_harness {
+    include!(concat!(env!("AUTOSAR_DATA_VERIF_DIR"), "/harness/parser.rs"));
+}
